@@ -458,7 +458,7 @@ func (ex *exec) encode(fr *frame, t types.Type, v value, addr *value, depth int)
 			}
 		}
 		if types.IsInterface(t) {
-			iv := v.(iface)
+			iv := ex.force(v.(iface))
 			if iv.t == nil {
 				return &jnode{kind: jNull}
 			}
@@ -511,6 +511,9 @@ func (ex *exec) encode(fr *frame, t types.Type, v value, addr *value, depth int)
 		iv := v.(iface)
 		if iv.t == nil {
 			return &jnode{kind: jNull}
+		}
+		if iv.t == ex.lazyT {
+			return iv.v.(*jnode)
 		}
 		return ex.encode(fr, iv.t, iv.v, nil, depth+1)
 	case *types.Slice:
@@ -742,12 +745,38 @@ func (n *jnode) describe() string {
 // decode stores node n into the slot addr of type t.
 func (d *decodeState) decode(n *jnode, t types.Type, addr *value) {
 	ex := d.ex
-	if n.kind == jLazy {
-		n = ex.resolveLazy(n)
-	}
-	// Unmarshaler on *T
 	pt := types.NewPointer(t)
 	_, isPtr := t.Underlying().(*types.Pointer)
+	hasUnm := !types.IsInterface(t) && !isPtr && ex.hasMethod(pt, "UnmarshalJSON") != nil
+	if n.kind == jLazy {
+		switch {
+		case n.lazy.resolved != nil:
+			n = n.lazy.resolved
+		case hasUnm:
+			// the Unmarshaler inspects the value itself
+		case isPtr:
+			if n.lazy.nonNull || ex.decide("jsonnull", []*Term{ex.tt.Bool(true), ex.tt.Bool(true)}) == 1 {
+				n.lazy.nonNull = true
+			} else {
+				n, _ = ex.resolveLazyFor(n, nil, nil, false) // null
+			}
+		default:
+			if it, ok := t.Underlying().(*types.Interface); ok && it.NumMethods() == 0 {
+				cur := (*addr).(iface)
+				if cur.t == nil {
+					*addr = ex.nodeToInterface(n)
+					return
+				}
+			}
+			r, mismatch := ex.resolveLazyFor(n, wantedKinds(t), structKeyMenu(t), true)
+			if mismatch {
+				d.typeErr("value", t)
+				return
+			}
+			n = r
+		}
+	}
+	// Unmarshaler on *T
 	if n.kind == jNull && isPtr {
 		*addr = (*value)(nil)
 		return
@@ -755,7 +784,7 @@ func (d *decodeState) decode(n *jnode, t types.Type, addr *value) {
 	if !types.IsInterface(t) {
 		if isPtr {
 			// *T with T's pointer implementing Unmarshaler: allocate and descend (handled below in pointer case)
-		} else if ex.hasMethod(pt, "UnmarshalJSON") != nil {
+		} else if hasUnm {
 			d.callUnmarshaler(pt, addr, n)
 			return
 		} else if ex.hasMethod(pt, "UnmarshalText") != nil {
@@ -948,6 +977,45 @@ func (d *decodeState) decode(n *jnode, t types.Type, addr *value) {
 	}
 }
 
+// wantedKinds lists the JSON kinds a decode target of type t accepts.
+func wantedKinds(t types.Type) []jkind {
+	switch u := t.Underlying().(type) {
+	case *types.Basic:
+		switch {
+		case u.Kind() == types.Bool:
+			return []jkind{jBool}
+		case u.Kind() == types.String:
+			return []jkind{jStr}
+		case u.Info()&types.IsNumeric != 0:
+			return []jkind{jFloat}
+		}
+	case *types.Slice:
+		if eb, ok := u.Elem().Underlying().(*types.Basic); ok && eb.Kind() == types.Uint8 {
+			return []jkind{jStr}
+		}
+		return []jkind{jArr}
+	case *types.Array:
+		return []jkind{jArr}
+	case *types.Map, *types.Struct:
+		return []jkind{jObj}
+	case *types.Interface:
+		return allJSONKinds
+	}
+	return allJSONKinds
+}
+
+func structKeyMenu(t types.Type) []string {
+	st, ok := t.Underlying().(*types.Struct)
+	if !ok {
+		return nil
+	}
+	var keys []string
+	for _, f := range jsonFields(st) {
+		keys = append(keys, f.name)
+	}
+	return keys
+}
+
 func foldEqual(a, b string) bool {
 	return strings.EqualFold(a, b) || foldName(a) == foldName(b)
 }
@@ -1033,11 +1101,23 @@ func (d *decodeState) numAsFloat(n *jnode) value {
 	panic("numAsFloat")
 }
 
-func (d *decodeState) toInterface(n *jnode) value {
-	ex := d.ex
+func (d *decodeState) toInterface(n *jnode) value { return d.ex.nodeToInterface(n) }
+
+// nodeToInterface is the value encoding/json stores when decoding into interface{}. An unresolved lazy node
+// becomes a lazy interface value: its dynamic type is decided only when the program inspects it (force).
+func (ex *exec) nodeToInterface(n *jnode) value {
 	if n.kind == jLazy {
-		n = ex.resolveLazy(n)
+		if n.lazy.resolved == nil {
+			return iface{t: ex.lazyT, v: n}
+		}
+		if n.lazy.forced != nil {
+			return *n.lazy.forced
+		}
+		r := ex.nodeToInterface(n.lazy.resolved).(iface)
+		n.lazy.forced = &r
+		return r
 	}
+	d := &decodeState{ex: ex}
 	switch n.kind {
 	case jNull:
 		return iface{}
@@ -1050,17 +1130,34 @@ func (d *decodeState) toInterface(n *jnode) value {
 	case jArr:
 		s := make([]value, len(n.arr))
 		for i, c := range n.arr {
-			s[i] = d.toInterface(c)
+			s[i] = ex.nodeToInterface(c)
 		}
 		return iface{t: ex.anySlice(), v: s}
 	case jObj:
 		m := makeMap(types.Typ[types.String])
 		for i, k := range n.keys {
-			ex.mapInsert(m, k, d.toInterface(n.vals[i]))
+			ex.mapInsert(m, k, ex.nodeToInterface(n.vals[i]))
 		}
 		return iface{t: ex.anyMap(), v: m}
 	}
-	panic("toInterface")
+	panic("nodeToInterface")
+}
+
+// force decides the dynamic type of a lazy interface value (one level).
+func (ex *exec) force(x iface) iface {
+	if x.t != ex.lazyT || x.t == nil {
+		return x
+	}
+	n := x.v.(*jnode)
+	ex.resolveLazy(n)
+	return ex.nodeToInterface(n).(iface)
+}
+
+func (ex *exec) forceV(v value) value {
+	if x, ok := v.(iface); ok && x.t != nil && x.t == ex.lazyT {
+		return ex.force(x)
+	}
+	return v
 }
 
 func (p *Program) anySlice() types.Type { return types.NewSlice(p.anyType) }
